@@ -71,7 +71,7 @@ func spinning(dump, repo string) map[string]string {
 		id := strings.Fields(lines[0])[1]
 		for i := 1; i+1 < len(lines); i += 2 {
 			loc := strings.TrimSpace(lines[i+1])
-			if strings.HasPrefix(loc, repo+"/") {
+			if strings.HasPrefix(loc, repo+"/") && !strings.HasPrefix(lines[i], "created by ") {
 				fn := lines[i]
 				if k := strings.LastIndex(fn, "("); k > 0 {
 					fn = fn[:k]
